@@ -187,13 +187,14 @@ theorem C06_nothing_without_validation (cfg : Cfg) (s0 t0 : Int) (evs : List Ev)
 
 /-- **reaction to a validator reject.**  Every state, every kind but Logon (a SequenceReset: readable GapFillFlag): a message
     whose BeginString, CompIDs and SendingTime are in order, carrying the expected MsgSeqNum, on which the validator reports
-    `(reason, refTag)` — the validator's reasons are 0 1 2 4 5 6 11 13 14 16, never the two that end the session — is answered
-    with a session-level Reject carrying exactly that reason and tag, and its sequence number is consumed. -/
+    `(reason, refTag)` is answered with a session-level Reject carrying exactly that reason and tag, and its sequence number
+    is consumed (the validator's reasons are 0 1 2 4 5 6 11 13 14 16, never the two that end the session with a Logout:
+    `validate_reason_ok`, proved through every stage of the validator model). -/
 theorem C06_reaction_validation (s : Sess) (m : InMsg) (reason : Nat) (refTag : Option Nat) (hk : kindOf m ≠ "A")
     (h4 : kindOf m = "4" → getBool m 123 ≠ .garbled) (hb : BeginOK s.cfg m) (hc : CompOK s.cfg m) (ht : TimeGate s m)
-    (hn : getInt m 34 = .val s.store.target) (hv : validate s.cfg m = some (.plain reason refTag false))
-    (hr : reason ≠ 9 ∧ reason ≠ 10) :
+    (hn : getInt m 34 = .val s.store.target) (hv : validate s.cfg m = some (.plain reason refTag false)) :
     inSessionFixMsgIn s m = (incrTarget (doReject s m reason refTag false), .inSession) := by
+  have hr := validate_reason_ok hv
   have hs : ∀ th tl, SeqGate s m th tl := fun _ _ => ⟨fun _ => ⟨_, hn, Int.le_refl _⟩, fun _ => ⟨_, hn, Int.le_refl _⟩⟩
   rw [inSession_of_reject s m _ hk h4 (fun th tl => C06_gate_validation_verdict s m th tl _ hb hc ht (hs th tl) hv)]
   unfold processReject
